@@ -256,12 +256,11 @@ def check(case, out):
         else:
             F = getattr(L, fn)(A, *extra)
         y = np.asarray(F @ v)
-    except AssertionError as e:
-        tn, where = oracle.exc_bucket(e)
-        out.refusals += 1
-        out.notes.append(f"refusal:{where}")
-        return
     except Exception as e:
+        if oracle.is_contract_refusal(e):
+            out.refusals += 1
+            out.notes.append("refusal:" + oracle.exc_bucket(e)[1])
+            return
         out.fail("call", site, oracle.exc_man(e), e)
         return
     try:
